@@ -35,6 +35,9 @@ cdef class DefaultRecordBatch:
 
     cdef inline int _check_bounds(
             self, Py_ssize_t pos, Py_ssize_t size) except -1
+    cdef inline int _read_varint(
+            self, char* buf, Py_ssize_t* read_pos,
+            int64_t* out_value) except -1
     cdef inline _read_header(self)
     cdef _maybe_uncompress(self)
 
